@@ -23,6 +23,8 @@ func main() {
 	scn := []*vexplore.Scenario{
 		mk("odpub-served-then-late", "on-demand publisher: R1+D1 on hold, publisher arrives, serves, leaves; late reader R2", nil,
 			pmlib.DemandSpec{Source: true, SourceGoes: true, Describe: true, Late: true}, 1, 2),
+		mk("odpub-served-stays", "on-demand publisher arrives, serves R1+D1 and stays: the close-after timer must not stop the command while R1 is attached", nil,
+			pmlib.DemandSpec{Source: true, Describe: true}, 2, 3),
 		mk("odpub-timeout-then-late", "on-demand publisher never comes: start timeout; late reader R2 restarts the command", nil,
 			pmlib.DemandSpec{Describe: true, Late: true}, 2, 3),
 		mk("odpub-close-while-held", "manager shut down while R1+D1 are on hold and the publisher arrives", nil,
